@@ -4,10 +4,12 @@ package valid
 
 import (
 	"encoding/json"
+	"math"
 	"net"
 	"os"
 	"reflect"
 	"regexp"
+	"strconv"
 	"strings"
 	"time"
 )
@@ -331,5 +333,24 @@ func H_C05_args_sequence() {
 	p := vRuleViolated(Prefix, "prefix=ab", v)
 	q := vRuleViolated(Prefix, "prefix=ac", v)
 	vAssert(p == !strings.HasPrefix(v, "ab") && q == !strings.HasPrefix(v, "ac"), "C05 prefix sequence")
+	vReach("end")
+}
+
+// unique on float slices / arrays: elements are compared by their canonical decimal rendering
+// (NaN renders as NaN twice; 0 and -0 render differently)
+func H_C05_unique_float() {
+	negZero := math.Copysign(0, -1)
+	vals := []float64{math.NaN(), 0, negZero, 1.5, -1.5, math.Inf(1), 1e21, 100}
+	x, y := vals[vndChoice("x", len(vals))], vals[vndChoice("y", len(vals))]
+	same := strconv.FormatFloat(x, 'f', -1, 64) == strconv.FormatFloat(y, 'f', -1, 64)
+	switch vndChoice("carrier", 3) {
+	case 0:
+		vAssert(vRuleViolated(Unique, "unique", []float64{x, y}) == same, "C05 unique/[]float64: compared by canonical decimal rendering")
+	case 1:
+		vAssert(vRuleViolated(Unique, "unique", [3]float64{x, 7, y}) == same, "C05 unique/[3]float64: compared by canonical decimal rendering")
+	case 2:
+		same32 := strconv.FormatFloat(float64(float32(x)), 'f', -1, 32) == strconv.FormatFloat(float64(float32(y)), 'f', -1, 32)
+		vAssert(vRuleViolated(Unique, "unique", []float32{float32(x), float32(y)}) == same32, "C05 unique/[]float32: compared by canonical decimal rendering")
+	}
 	vReach("end")
 }
